@@ -31,6 +31,7 @@ from hypothesis import strategies as st
 
 from fedjax.core import federated_data as fd_lib
 from fedjax.core import in_memory_federated_data as mem_lib
+from fedjax.core import serialization
 from fedjax.core import sqlite_federated_data as sql_lib
 
 from vf.core import Check, Violation, require
@@ -441,6 +442,33 @@ def apply_op(view, op, mv):
   raise ValueError(op['op'])
 
 
+# A database in the same schema whose blobs are NOT in the default encoding: the
+# documented `parse_examples` option of SQLiteFederatedData.new.  Rows go in in
+# reverse order (rowid order differs from the builder-written file) and the blob
+# is a tag followed by uncompressed msgpack, so only `_custom_parse` reads it.
+_CUSTOM_TAG = b'C08v1:'
+
+
+def _custom_parse(blob):
+  assert bytes(blob[:len(_CUSTOM_TAG)]) == _CUSTOM_TAG, 'blob not in the custom encoding'
+  return serialization.msgpack_deserialize(bytes(blob[len(_CUSTOM_TAG):]))
+
+
+def write_custom_db(path, order, rows):
+  conn = sqlite3.connect(path)
+  conn.execute("""CREATE TABLE federated_data (
+      client_id BLOB NOT NULL PRIMARY KEY,
+      data BLOB NOT NULL,
+      num_examples INTEGER NOT NULL);""")
+  for i in reversed(order):
+    conn.execute('INSERT INTO federated_data VALUES (?, ?, ?);',
+                 (i, _CUSTOM_TAG + serialization.msgpack_serialize(rows[i]),
+                  int(rows[i]['x'].shape[0])))
+  conn.commit()
+  conn.close()
+
+
+
 def run_history(case):
   model = simulate(case)
   rows = make_rows(case)            # the model's own copy
@@ -461,17 +489,30 @@ def run_history(case):
     mapping = {i: impl_rows[i] for i in order}
     sql = sql_lib.SQLiteFederatedData.new(path)
     connections.append(getattr(sql, '_connection', None))
-    conn = sqlite3.connect(path)
-    connections.append(conn)
+    if case['split'] % 3 == 2:
+      # the builder-written file is still read once (above); the views under
+      # test stand on a file in the caller's own encoding
+      custom = os.path.join(tmp, 'custom0.sqlite')
+      write_custom_db(custom, order, impl_rows)
+      sql = sql_lib.SQLiteFederatedData.new(custom, _custom_parse)
+      connections.append(getattr(sql, '_connection', None))
+    if case['split'] % 2:
+      conn = sqlite3.connect(path)
+      connections.append(conn)
+      under = sql_lib.SQLiteFederatedData(conn, sql_lib.decompress_and_deserialize)
+    else:
+      custom = os.path.join(tmp, 'custom.sqlite')
+      write_custom_db(custom, order, impl_rows)
+      under = sql_lib.SQLiteFederatedData.new(custom, parse_examples=_custom_parse)
+      connections.append(getattr(under, '_connection', None))
     views = {
         'mem': [mem_lib.InMemoryFederatedData(mapping)],
         'sql': [sql],
         'sub_mem': [fd_lib.SubsetFederatedData(
             mem_lib.InMemoryFederatedData(dict(mapping)), list(order))],
-        'sub_sql': [fd_lib.SubsetFederatedData(
-            sql_lib.SQLiteFederatedData(conn, sql_lib.decompress_and_deserialize),
-            set(order))],
+        'sub_sql': [fd_lib.SubsetFederatedData(under, set(order))],
     }
+    del under
     for step in range(len(case['ops']) + 1):
       if step > 0:
         op = case['ops'][step - 1]
